@@ -127,6 +127,9 @@ def jobs(pid, tier):
                      need_outcomes=['loaded']))
     if pid == 'C17':
         J.append(Job('reject', dict(N=3, L=2, fires=1), need_outcomes=['rejected:apply_unknown_op', 'rejected:expr_syntax', 'rejected:var_undeclared']))
+    if pid == 'C18':
+        J.append(Job('views', dict(N=4, L=2), need_outcomes=['viewed:' + k for k in
+                     ('expand_function', 'expand_succ', 'descendants', 'to_nx', 'to_dot')]))
     if pid == 'C19':
         for w in ('cudd', 'cudd_zdd', 'sylvan', 'buddy'):
             J.append(Job('pyx', dict(which=w), need_outcomes=['compared'], procs=4))
